@@ -30,6 +30,10 @@ type call struct {
 	Key  string
 	Name string
 	Args []reflect.Value
+	// Method: reported by a bound model method (probe/boxmodel); ArgNames are the method's
+	// own parameter names in ITS parameter order (values are compared by name)
+	Method   bool
+	ArgNames []string
 }
 
 type dirCall struct {
@@ -53,7 +57,25 @@ func Fill(stub any) {
 		ft := f.Type()
 		f.Set(reflect.MakeFunc(ft, func(args []reflect.Value) []reflect.Value {
 			ctx := args[0].Interface().(context.Context)
-			if rec, _ := ctx.Value(recKey{}).(*recorder); rec != nil {
+			rec, _ := ctx.Value(recKey{}).(*recorder)
+			if ft.Out(0).Kind() == reflect.Ptr && ft.Out(0).Elem().Kind() == reflect.Struct {
+				// an object whose fields are bound to model methods (Query.box): hand it a
+				// logger; the methods report what they receive
+				obj := reflect.New(ft.Out(0).Elem())
+				if lf := obj.Elem().FieldByName("Log"); lf.IsValid() && rec != nil {
+					lf.Set(reflect.ValueOf(func(field string, names []string, vals ...any) {
+						c := call{Key: field, Name: field, Method: true, ArgNames: names}
+						for _, v := range vals {
+							c.Args = append(c.Args, reflect.ValueOf(v))
+						}
+						rec.mu.Lock()
+						rec.calls = append(rec.calls, c)
+						rec.mu.Unlock()
+					}))
+				}
+				return []reflect.Value{obj, reflect.Zero(ft.Out(1))}
+			}
+			if rec != nil {
 				fc := graphql.GetFieldContext(ctx)
 				rec.mu.Lock()
 				rec.calls = append(rec.calls, call{Key: fc.Field.Alias, Name: fc.Field.Name, Args: args[1:]})
@@ -433,6 +455,9 @@ func (h *Harness) Run(c Case) (obs Observed) {
 		parts := make([]string, len(cl.Args))
 		for i, a := range cl.Args {
 			parts[i] = RenderGo(a)
+			if cl.Method && i < len(cl.ArgNames) {
+				parts[i] = cl.ArgNames[i] + "=" + parts[i]
+			}
 		}
 		obs.Calls = append(obs.Calls, cl.Key+"("+strings.Join(parts, "; ")+")")
 	}
@@ -471,6 +496,18 @@ func svAt(v *SV, path []string) *SV {
 	return v
 }
 
+func pathsEqual(a, b []string) bool {
+	if len(a) != len(b) {
+		return false
+	}
+	for i := range a {
+		if a[i] != b[i] {
+			return false
+		}
+	}
+	return true
+}
+
 // pathsAgree: one path is a prefix of the other, where the observed path may carry extra
 // "0" index components (the element index of a single value that list coercion wrapped).
 func pathsAgree(want, got []string) bool {
@@ -490,11 +527,9 @@ func pathsAgree(want, got []string) bool {
 }
 
 // agree compares an observation with one reference result; "" = they agree.
-func (h *Harness) agree(exp Expect, obs Observed, f *ast.Field, fd *ast.FieldDefinition) string {
-	key := f.Alias
-	if key == "" {
-		key = f.Name
-	}
+func (h *Harness) agree(exp Expect, obs Observed, prefix []string, fd *ast.FieldDefinition) string {
+	key := prefix[len(prefix)-1]
+	np := len(prefix)
 	for _, e := range append(append([]ErrInfo(nil), obs.Gate...), obs.Errors...) {
 		if strings.HasPrefix(e.Msg, "PANIC:") {
 			if exp.PanicOK && len(obs.rec.calls) == 0 {
@@ -518,7 +553,7 @@ func (h *Harness) agree(exp Expect, obs Observed, f *ast.Field, fd *ast.FieldDef
 		}
 		// execution-stage errors must sit at the argument's path beneath the field
 		for _, e := range obs.Errors {
-			ok := len(e.Path) >= 2 && e.Path[0] == key && fd.Arguments.ForName(e.Path[1]) != nil
+			ok := len(e.Path) >= np+1 && pathsEqual(e.Path[:np], prefix) && fd.Arguments.ForName(e.Path[np]) != nil
 			if ok && !exp.RequestError {
 				ok = false
 				for _, want := range exp.ErrPaths {
@@ -541,22 +576,46 @@ func (h *Harness) agree(exp Expect, obs Observed, f *ast.Field, fd *ast.FieldDef
 		return fmt.Sprintf("call-count: %d resolver calls for one field", len(obs.rec.calls))
 	}
 	cl := obs.rec.calls[0]
-	if cl.Key != key {
+	if cl.Key != key && !(cl.Method && cl.Name == fd.Name) {
 		return "call-count: resolver called for " + cl.Key
 	}
-	ft := h.fnType[norm(fd.Name)]
 	for i, ad := range fd.Arguments {
 		var sp *SV
 		if v, has := exp.Args[ad.Name]; has {
 			sp = &v
 		}
-		want := RenderExpected(sp, ft.In(i+1), cl.Args[i])
-		got := RenderGo(cl.Args[i])
+		var argT reflect.Type
+		var argV reflect.Value
+		if cl.Method {
+			// a bound model method: find the parameter it reported under this argument's name
+			idx := -1
+			for j, n := range cl.ArgNames {
+				if strings.EqualFold(n, ad.Name) {
+					idx = j
+				}
+			}
+			if idx < 0 || idx >= len(cl.Args) || !cl.Args[idx].IsValid() {
+				return fmt.Sprintf("value-mismatch: method %s did not receive argument %s", fd.Name, ad.Name)
+			}
+			argT, argV = cl.Args[idx].Type(), cl.Args[idx]
+		} else {
+			argT, argV = h.fnType[norm(fd.Name)].In(i+1), cl.Args[i]
+		}
+		want := RenderExpected(sp, argT, argV)
+		got := RenderGo(argV)
 		if want != got {
-			return fmt.Sprintf("value-mismatch: argument %s: specification gives %s, resolver received %s", ad.Name, want, got)
+			who := "resolver"
+			if cl.Method {
+				who = "model method parameter " + ad.Name
+			}
+			return fmt.Sprintf("value-mismatch: argument %s: specification gives %s, %s received %s", ad.Name, want, who, got)
 		}
 	}
-	if obs.Data != `{"`+key+`":"ok"}` {
+	wantData := `"ok"`
+	for i := np - 1; i >= 0; i-- {
+		wantData = `{"` + prefix[i] + `":` + wantData + `}`
+	}
+	if obs.Data != wantData {
 		return "data: unexpected response data " + obs.Data
 	}
 	for _, d := range obs.rec.dirs {
@@ -607,12 +666,11 @@ func (h *Harness) Judge(c Case, obs Observed) Verdict {
 	if err != nil {
 		broken("generated variables do not decode: %v: %s", err, c.Vars)
 	}
-	f := doc.Operations[0].SelectionSet[0].(*ast.Field)
-	fd := h.Schema.Query.Fields.ForName(f.Name)
+	prefix, _, fd := Target(h.Schema, doc)
 	eval := func(in Interp, q Quirks) (Expect, string) {
 		r := &Ref{Schema: h.Schema, IDKind: h.IDKind, In: in, Q: q}
 		exp := r.Evaluate(doc, rawVars)
-		return exp, h.agree(exp, obs, f, fd)
+		return exp, h.agree(exp, obs, prefix, fd)
 	}
 	interps := AllInterps()
 	primary, firstWhy := eval(interps[0], nil)
